@@ -87,6 +87,25 @@ def gen_case(rng, tier):
                 docs.append(M([]))
             docs[-1]['items'].append([wk, late])
             focus = [wk] if holder is inner else [wk, 'sub']
+    unmentioned = None
+    if rng.random() < 0.2 and not any(emit.has_flags(d) for d in docs) and 'um' not in [k for d in docs for k, _ in d['items']]:
+        # "paths that the newer document does not mention ... come out unchanged": a list, and a later mapping which removes /
+        # rewrites some of its positions (written in any order, some counted from the end) - all other elements stay, in order
+        n_el = rng.choice([3, 4, 5, 6])
+        orig = [f'U{j}' for j in range(n_el)]
+        touched = rng.sample(range(n_el), rng.choice([1, 2, 2, 3]))
+        removed = [j for j in touched if rng.random() < 0.75]
+        rewritten = {j: f'NEW{j}' for j in touched if j not in removed}
+        items = [[(j - n_el if rng.random() < 0.3 else j), (emit.S(None, vdel=True) if j in removed else emit.S(rewritten[j]))] for j in touched]
+        rng.shuffle(items)
+        nest = rng.random() < 0.5
+        lst = emit.L([emit.S(x) for x in orig])
+        docs[0]['items'].append(['um', M([['lst', lst]]) if nest else lst])
+        if len(docs) < 2:
+            docs.append(M([]))
+        late = M(items)
+        docs[rng.randrange(1, len(docs))]['items'].append(['um', M([['lst', late]]) if nest else late])
+        unmentioned = {'path': ['um', 'lst'] if nest else ['um'], 'expected': [rewritten.get(j, orig[j]) for j in range(n_el) if j not in removed]}
     coincide = None
     if rng.random() < 0.2:
         # a key of a deleting node that merely has the same *name* as a key somewhere below an older sibling container: renaming it
@@ -139,7 +158,7 @@ def gen_case(rng, tier):
             'wrapped': [emit.emit(wrap(d, prefix), style) for d in docs], 'prefix': prefix,
             'sibling': [emit.emit(d, style) for d in sib], 'sib_names': sib_names,
             'coincide': ({'name': coincide['name'], 'texts': [emit.emit(d, style) for d in docs[:-1]] + [emit.emit(coincide['alt_last'], style)]} if coincide else None),
-            'renamed': [emit.emit(rename(d, perm), style) for d in docs], 'perm': perm, 'focus': focus,
+            'renamed': [emit.emit(rename(d, perm), style) for d in docs], 'perm': perm, 'focus': focus, 'unmentioned': unmentioned,
             'ntags': sum(1 for d in docs for _, x in emit.walk(d) if emit.has_flags(x) or x['t'] == 'sp')}
 
 
@@ -224,6 +243,16 @@ def deep_sibling(case, base):
         except Exception:
             return None
         for st in b.stages:
+            # a later !prev which moves that mapping (or something around / inside it) elsewhere: an emptied mapping merges onto anything,
+            # one with a key in it does not (a list wants positions, a !notnew destination no new paths)
+            from awesomeyaml.nodes.prev import PrevNode
+            from .. import model as _model
+            for _, pn in st.ayns.nodes_with_paths():
+                if isinstance(pn, PrevNode):
+                    tgt = [str(c) for c in _model.parse_path(str(pn.ayns.value))]
+                    k = min(len(tgt), len(M))
+                    if tgt[:k] == [str(c) for c in M[:k]]:
+                        return None
             node = st
             for c in [None] + M:
                 if c is not None:
@@ -300,6 +329,15 @@ def run(case):
             got = {k: v for k, v in s[1].items() if k not in tuple(case.get('sib_names') or ('zz', 'zq'))}
             if util.typed(got) != util.typed(base[1]):
                 vio.append({'mech': 'sibling-changes-result', 'what': f'base = {util.short(base[1], 300)}; with siblings (restricted to the original keys) = {util.short(got, 300)}; texts={case["sibling"]!r}'})
+    # --- positions of a list which the newer mapping does not mention
+    if case.get('unmentioned'):
+        feats.append('unmentioned_list_positions_checked')
+        um = case['unmentioned']
+        cur = base[1] if base[0] == 'ok' else None
+        for c in um['path']:
+            cur = cur.get(c) if isinstance(cur, dict) else None
+        if base[0] == 'ok' and cur != um['expected']:
+            vio.append({'mech': 'unmentioned-list-positions-changed', 'what': f'the list at {um["path"]} should come out as {um["expected"]} (only the positions written by the later mapping removed / rewritten) but the build gives {util.short(cur if base[0] == "ok" else base, 300)}; texts={case["base"]!r}'})
     # --- name coincidence
     if case.get('coincide') and base[0] == 'ok':
         c, _ = observe(case['coincide']['texts'])
